@@ -43,7 +43,7 @@ func init() {
 		withExtra := memstore.New(append(append([]core.Series{}, c.Series...), extra...))
 		qo := QueryOpts(c.QLookback)
 		ctx := context.Background()
-		tol := oracle.DefaultTol(Scale(c.Series))
+		tol := TolOf(c)
 		type variant struct {
 			name    string
 			procs   int
